@@ -365,6 +365,7 @@ type session struct {
 	ctxs      []context.Context
 	retained  []retainedStr
 	retainedB []retainedBytes
+	retainedP []retainedParams
 	// route, when set, selects the per-connection session a callback belongs to
 	route func(addr string) *session
 	// decls: the application builds the declaration (parameter types) of a statement text once and hands the
@@ -401,6 +402,29 @@ func (s *session) retainBytes(what string, v []byte) {
 	// keep the slice itself (as a string view sharing memory is not possible
 	// without unsafe; compare via the original slice header)
 	s.retainedB = append(s.retainedB, retainedBytes{view: v, copy: append([]byte(nil), v...), what: what})
+}
+
+// retainedParams: the parameter slice handed to a statement function, kept as handed over
+type retainedParams struct {
+	view []wire.Parameter
+	vals [][]byte
+	fmts []wire.FormatCode
+}
+
+func (s *session) retainParams(ps []wire.Parameter) {
+	if len(ps) == 0 {
+		return
+	}
+	rp := retainedParams{view: ps}
+	for _, p := range ps {
+		var v []byte
+		if p.Value() != nil {
+			v = append([]byte{}, p.Value()...)
+		}
+		rp.vals = append(rp.vals, v)
+		rp.fmts = append(rp.fmts, p.Format())
+	}
+	s.retainedP = append(s.retainedP, rp)
 }
 
 type retainedBytes struct {
@@ -858,6 +882,7 @@ func (s0 *session) parseFn(ctx context.Context, query string) (wire.PreparedStat
 					s.retainBytes("param", p.Value())
 				}
 			}
+			s.retainParams(params)
 			s.log.add("X:" + hx([]byte(query)) + ":" + strconv.Itoa(idx) + ":" + strings.Join(ps, ",") + s.ctxSig(ctx))
 			s.ctxs = append(s.ctxs, ctx)
 			return s.runStmt(ctx, st, w, params)
